@@ -153,7 +153,7 @@ def run_case(case):
             rpdu = specpdu.encode(tx['kind'], tx['fields'])
             if framing == 'binary':
                 fr = refframe.build('binary', tx['unit'], rpdu)
-                if any(b in (0x7B, 0x7D) for b in fr[1:-1]):
+                if refframe.binary_fragile(fr):
                     labels.append('excluded-binary-delimiter')
                     break
             if framing != 'tcp' and not ckind.startswith('tcp+'):
@@ -174,7 +174,7 @@ def run_case(case):
             if peer.bad_request:
                 discs.append(Disc('request-frame', 'tx %d: client wrote a frame the reference cannot parse: %s %s' % (i, peer.bad_request[0].hex()[:60], peer.bad_request[1])))
                 break
-            if framing == 'binary' and any(any(b in (0x7B, 0x7D) for b in p['frame'][1:-1]) for p in peer.placed):
+            if framing == 'binary' and any(refframe.binary_fragile(p['frame']) for p in peer.placed):
                 labels.append('excluded-binary-delimiter')
                 break
             req_tid = refframe.parse_one(framing, peer.written[-1])['tid'] if peer.written else None
